@@ -54,4 +54,8 @@ def run(ctx):
                     P.rel_c06, sample=1200000, timeout=3500)
         P.run_model(ctx, "s2n_11111_own0", [1, 1, 1, 1, 1], 0, 7,
                     scenarios(["notar", "skip"], ["notar"]), INVS, P.rel_c06, sample=800000, timeout=3500)
+    # code -> spec on real executions: every pool call / Votor step of every correct node of simulated networks
+    # (equivocating and noisy Byzantine validators, loss, crashes, standstill recovery) is a transition of the spec
+    from .. import nodetrace as NT
+    NT.component_sims(ctx, lambda a: "ev.SafeToNotar" in a or "ev.SafeToSkip" in a)
     return ctx.finish(rule="every transition (vote / own vote / block registration / parent certificate arriving in any order) is one case")
